@@ -817,6 +817,17 @@ def full_data_handoff(repo, rep):
                func=f, node=got[0] if got else f.node, construct="%s from %s filtered by %s" % (name, src, got[2] if got else None),
                detail="" if ok else "%s is not {node: time for node, time in %s.items() if %s}: times of events that never ran would "
                "enter the node histories" % (name, src, filters[0]))
+    # what the hand-off reads must have been written for the initial nodes: their infection time is tmin
+    enq = [n for n in f.node.body if isinstance(n, ast.For) and _k(n.iter) == "initial_infecteds"
+           and any(isinstance(x, ast.Call) and _k(x.func).endswith(".add") for x in ast.walk(n))]
+    oki = False
+    if len(enq) == 1:
+        u = _k(enq[0].target)
+        oki = any(isinstance(b, ast.Assign) and _k(b.targets[0]) == "pred_inf_time[%s]" % u and _k(b.value) == "tmin" for b in enq[0].body)
+    rep.ob("HANDOFF", oki, "fast_nonMarkov_SIR: every initially infected node gets infection time tmin in the table the histories are built from",
+           func=f, node=enq[0] if enq else f.node, construct="pred_inf_time[u] = tmin in the initial enqueue loop: %s" % oki,
+           detail="" if oki else "the loop that enqueues the initial infections no longer sets pred_inf_time[u] = tmin: with full data the "
+           "initial nodes have no (or a later, predicted) infection time")
     for fname, sir in (("fast_nonMarkov_SIR", True), ("Gillespie_SIR", True), ("fast_SIS", False), ("fast_nonMarkov_SIS", False),
                        ("Gillespie_SIS", False)):
         g = repo.f(fname)
